@@ -13,6 +13,7 @@ import hier_world as hw
 import hier_gen, hier_oracles, ir_run
 from ir_world import World
 
+UNREF_SIG = 'C11|hrefs_of_item|instance-without-reference|empty'
 KINDS = ['inst', 'port', 'pin', 'cable', 'wire']
 SELS = ['ALL', 'INSIDE', 'OUTSIDE', 'BOTH']
 COQ_FILES = ['Hier/Paths', 'Hier/Enum', 'Hier/Trace', 'Hier/Conn', 'Proofs/HierValid', 'Proofs/HierEnum',
@@ -201,8 +202,14 @@ def run_case_c11(ops, edit_ops, rng, stats, m, light=False):
             raw = [hw.tup(w, h) for h in refs]
             if len(raw) != len(set(raw)):
                 P.add('oracle', 'C11|hrefs_of_item|duplicate-reference', item=t)
+            exp = E.occurrences(o) if E.rooted else None
+            if isinstance(o, sdn.ir.Instance) and o.reference is None and exp and not raw:
+                # open finding C11-instance-without-reference (precise signature; anything else
+                # about such an instance still goes through the generic comparison)
+                P.add('oracle', UNREF_SIG, what='get_all_hrefs_of_item(%s)' % t, expected=exp[:3])
+                exp = None
             cmp3(P, 'get_all_hrefs_of_item(%s)' % t, 'C11|hrefs_of_item|%s' % type(o).__name__, sorted(raw),
-                 hw.parse_hrefs(a), E.occurrences(o) if E.rooted else None)
+                 hw.parse_hrefs(a), exp)
             for tt, h in zip(raw, refs):
                 if tt in keep and keep[tt] is not h:
                     P.add('oracle', 'C11|flyweight|not-same-object', href=tt)
@@ -232,6 +239,9 @@ def run_case_c11(ops, edit_ops, rng, stats, m, light=False):
                 for r in (False, True):
                     impl, _ = hw.impl_enum(w, k, o, r)
                     exp = sorted(set(insts)) if k == 'inst' else E.contents_from(k, insts, r)
+                    if k == 'inst' and isinstance(o, sdn.ir.Instance) and o.reference is None and exp and not impl:
+                        P.add('oracle', UNREF_SIG, what='get_hinstances(Instance #%d)' % i, expected=exp[:3])
+                        continue
                     cmp3(P, 'get_h%s(%s #%d, recursive=%s)' % (k, type(o).__name__, i, r),
                          'C11|root|%s|%s' % (type(o).__name__, k), impl, None, exp if E.rooted else None)
                     stats['root:%s' % type(o).__name__] += 1
@@ -423,16 +433,13 @@ def shrink_case(prop, case, sig, m, seed):
         P = run_case(prop, {'ops': cand_ops, 'edits': case.get('edits')}, rng, new_stats(), m, light=True)
         return any(p['sig'] == sig for p in P)
     try:
-        ops = ir_run.shrink(case['ops'], still, budget=60)
+        ops = ir_run.shrink(case['ops'], still, budget=40)
     except Exception:
         ops = case['ops']
     return dict(case, ops=ops)
 
 
 def new_stats():
-    s = collections.Counter()
-    s2 = collections.defaultdict(list)
-
     class S(dict):
         def __missing__(self, k):
             if k in ('paths', 'class-size', 'class-levels', 'answer-size'):
@@ -508,6 +515,9 @@ def run(prop, tier, seed, replay):
                 seen_sigs[sig] += 1
                 continue
             seen_sigs[sig] = 1
+            if len(rep.violations) >= 4:
+                # enough distinct failures shrunk and reported; the others are listed in the evidence
+                continue
             small = shrink_case(prop, case, sig, m, seed)
             P2 = [q for q in run_case(prop, small, random.Random('%d/shrink' % seed), new_stats(), m, light=True) if q['sig'] == sig] or [p]
             if p['kind'] == 'oracle':
@@ -588,6 +598,7 @@ def run(prop, tier, seed, replay):
         'histogram_counters': {k: v for k, v in sorted(stats.items()) if isinstance(v, int)},
         'model_impl_disagreements': counts['corr'], 'oracle_failures': counts['oracle'],
         'known_findings_matched': {k: v[0] for k, v in known_seen.items()},
+        'failure_signatures': dict(seen_sigs),
         'flyweight_note': 'same path => same object and equal hash is a runtime residue of the weak flyweight table: it is '
                           'checked on the implementation only (`is`, hash()); the model has value equality',
         'hypotheses_checked_on_inputs': 'the booleans inv1a_b / inv2a_b / wfk_b / acyclic_b of Hier/Paths.v are evaluated by the '
